@@ -204,3 +204,69 @@ Lemma tie_tp_rh_destroy : TIE_tp_rh_destroy =
    (0, "free(rh)");
    (0, "*prh=NULL")].
 Proof. reflexivity. Qed.
+
+(* mtbl/writer.c: _mtbl_writer_flush *)
+Lemma tie_writer_flush : TIE_writer_flush =
+  [(0, "structdata_blockb");
+   (0, "assert(!w->closed)");
+   (0, "assert(w->m.file_version==MTBL_FORMAT_V2)");
+   (0, "if(block_builder_empty(w->data))return");
+   (0, "b.comp_type=w->opt.compression_type");
+   (0, "b.comp_level=w->opt.compression_level");
+   (0, "b.len_last_key=ubuf_size(w->last_key)");
+   (0, "b.last_key=my_malloc(b.len_last_key)");
+   (0, "memcpy(b.last_key,ubuf_data(w->last_key),b.len_last_key)");
+   (0, "block_builder_finish(w->data,&b.data,&b.len_data)");
+   (0, "block_builder_reset(w->data)");
+   (0, "if(w->pool!=NULL)");
+   (1, "structdata_block*bthread=my_calloc(1,sizeof(*bthread))");
+   (1, "memcpy(bthread,&b,sizeof(b))");
+   (1, "threadpool_dispatch(w->pool,w->rhandler,true,_compress_block_wrapper,(void*)bthread)");
+   (0, "else");
+   (1, "_mtbl_writer_compress_block(&b)");
+   (1, "_mtbl_writer_write_data_block(w,&b)")].
+Proof. reflexivity. Qed.
+
+(* mtbl/writer.c: _mtbl_writer_compress_block *)
+Lemma tie_writer_compress_block : TIE_writer_compress_block =
+  [(0, "mtbl_resres");
+   (0, "structdata_blocktmp");
+   (0, "if(b->comp_type==MTBL_COMPRESSION_NONE)");
+   (1, "res=mtbl_res_success");
+   (0, "elseif(b->comp_level==DEFAULT_COMPRESSION_LEVEL)");
+   (1, "res=mtbl_compress(b->comp_type,b->data,b->len_data,&tmp.data,&tmp.len_data)");
+   (0, "else");
+   (1, "res=mtbl_compress_level(b->comp_type,b->comp_level,b->data,b->len_data,&tmp.data,&tmp.len_data)");
+   (0, "assert(res==mtbl_res_success)");
+   (0, "if(b->comp_type!=MTBL_COMPRESSION_NONE)");
+   (1, "free(b->data)");
+   (1, "b->data=tmp.data");
+   (1, "b->len_data=tmp.len_data");
+   (0, "b->crc=htole32(mtbl_crc32c(b->data,b->len_data))")].
+Proof. reflexivity. Qed.
+
+(* mtbl/writer.c: _compress_block_wrapper *)
+Lemma tie_writer_compress_wrapper : TIE_writer_compress_wrapper =
+  [(0, "if(block==NULL)returnNULL");
+   (0, "_mtbl_writer_compress_block(block)");
+   (0, "returnblock")].
+Proof. reflexivity. Qed.
+
+(* mtbl/writer.c: _write_data_block_wrapper *)
+Lemma tie_writer_write_wrapper : TIE_writer_write_wrapper =
+  [(0, "if(block==NULL)return");
+   (0, "_mtbl_writer_write_data_block(writer,block)");
+   (0, "free(block)")].
+Proof. reflexivity. Qed.
+
+(* mtbl/sorter.c: _collect_readers_cb *)
+Lemma tie_sorter_collect_cb : TIE_sorter_collect_cb =
+  [(0, "structmtbl_sorter*s=sorter");
+   (0, "reader_vec_add(s->readers,reader)")].
+Proof. reflexivity. Qed.
+
+(* mtbl/sorter.c: _write_temp_file_wrapper *)
+Lemma tie_sorter_temp_file_wrapper : TIE_sorter_temp_file_wrapper =
+  [(0, "structmtbl_reader*r=_mtbl_sorter_write_chunk(batch)");
+   (0, "returnr")].
+Proof. reflexivity. Qed.
